@@ -53,7 +53,7 @@ def vec_prefix(ex, st, v, op, hint, sink=None):
     def Pf(j, P=P, params=params):
         return P(*(list(params) + [to_z3(j)]))
     body = z3.Implies(z3.And(0 <= k, k < to_z3(v.n)), Pf(k + 1) == op(Pf(k), elem))
-    f1 = z3.ForAll(list(params) + [k], body)
+    f1 = _close(params, body, extra=[k])
     (sink if sink is not None else st.assume)(f1)
     if canon is not None:
         ex.__dict__["_prefix_canon"][canon] = P
@@ -96,8 +96,14 @@ def alpha_key(t, _memo={}):
     return k
 
 
-def _close(params, f):
-    return z3.ForAll(list(params), f) if params else f
+def _close(params, f, extra=()):
+    """f closed over the binder constants `params` (and the plain bound variables `extra`).  The binders are renamed:
+    a loop index is a binder while the loop body runs (a sum computed there is a function of it) and stays a free
+    constant of the path condition, so the bound copy gets its own name."""
+    if not params:
+        return z3.ForAll(list(extra), f) if extra else f
+    ren = [(p, z3.Const(p.decl().name() + "_b", p.sort())) for p in params]
+    return z3.ForAll([b for _a, b in ren] + list(extra), z3.substitute(f, *ren))
 
 
 def prefix_sum_fn(ex, st, v):
